@@ -1,18 +1,20 @@
 #!/bin/bash
-# Offline setup: regenerate the harness go.mod from /repo and pre-build every check binary so
-# that later invocations only pay an incremental build.
+# Offline setup: regenerate the harness go.mod from /repo and pre-build the binaries of every
+# check registered in MANIFEST.json so that later invocations only pay an incremental build.
 export GOFLAGS=-mod=mod GOPROXY=off GOSUMDB=off GOTOOLCHAIN=local
 cd "$(dirname "$0")"
 ./harness/gen_gomod.sh || exit 1
-mkdir -p bin evidence replays
+mkdir -p bin evidence replays logs
+ids=$(python3 -c "import json;print(' '.join(c['property_id'].lower() for c in json.load(open('MANIFEST.json'))['checks']))" 2>/dev/null)
 cd harness
 fail=0
-for d in cmd/c*/; do
-  n=$(basename "$d")
-  go build -tags verif -o ../bin/$n ./cmd/$n || fail=1
-done
-# race variants used by the daemon checks
-for n in $(cat ../race_checks.txt 2>/dev/null); do
-  [ -d cmd/$n ] && { go build -race -tags verif -o ../bin/$n.race ./cmd/$n || fail=1; }
+pids=()
+for n in $ids; do
+  [ -d cmd/$n ] || continue
+  if grep -qx "$n" ../race_checks.txt 2>/dev/null; then
+    go build -race -tags verif -o ../bin/$n.race ./cmd/$n || fail=1
+  else
+    go build -tags verif -o ../bin/$n ./cmd/$n || fail=1
+  fi
 done
 exit $fail
